@@ -82,13 +82,16 @@ def pInteger : P Int
   | inp => (digit1 inp).bind fun (ds, r') =>
       let v := digitsVal ds; if v ≤ I64_MAX then some (Int.ofNat v, r') else none
 
+/-- `opt(one_of("+-"))` -/
+def optSign : Bytes → Bytes × Bytes
+  | 43 :: r => ([43], r)
+  | 45 :: r => ([45], r)
+  | r => ([], r)
+
 /-- `real`: opt(sign) (digit1 "." digit0 | "." digit1); result = the matched text
 (`f32::from_str` never fails on this shape). -/
 def pReal (inp : Bytes) : Option (Bytes × Bytes) :=
-  let (sign, r0) : Bytes × Bytes := match inp with
-    | 43 :: r => ([43], r)
-    | 45 :: r => ([45], r)
-    | r => ([], r)
+  let (sign, r0) : Bytes × Bytes := optSign inp
   match spanP isDigit r0 with
   | (d1@(_ :: _), 46 :: r1) =>
     let (d2, r2) := spanP isDigit r1
